@@ -147,6 +147,11 @@ def _explore(P, R, rule, key, what, f, thunk, stops=()):
     return None
 
 
+def _terms(evs):
+    """the terms a path was started with (every path builds its own: undetermined values are refined in place)"""
+    return {ev[1]: ev[3] for ev in evs if ev[0] == "term"}
+
+
 def _params(f, table, ab=None):
     """argument values for `f`: per parameter the first entry of `table` [(type substring, value or maker)] whose key occurs in the
     parameter's type; an undetermined value (with the parameter as its provenance) otherwise"""
@@ -388,6 +393,7 @@ def _b_literal_table(P, R):
 
     def thunk(ab):
         box["T"] = _Opq("branch.type_name", [("field", STB, "type_name")])
+        ab.event("term", "T", None, box["T"])
         un = [_t_field(P, "leaf", _Opq("k1"), typename=True), _t_field(P, "leaf", _Opq("k2"), ty=_ty("T"))]
         al = [_t_field(P, "leaf", _Opq("k3"), typename=True)]
         return ab.call(f.path, _params(f, [("SelectionTree<", _t_tree(P, ("NonNull", ("Object", [_t_branch(P, box["T"], un, al)]))))]))
@@ -395,7 +401,7 @@ def _b_literal_table(P, R):
     if paths is None:
         return
     seen = 0
-    for st, v, _ in paths:
+    for st, v, evs in paths:
         if st != "ok":
             continue
         try:
@@ -409,7 +415,7 @@ def _b_literal_table(P, R):
         seen += 1
         where = [("the unaliased `__typename`", ts[2][1][0][1][0], True), ("an ordinary leaf", ts[2][1][1][1][0], False), ("the aliased `__typename`", ts[3][1][0][1][0], True)]
         for what, t, want_lit in where:
-            is_own = t[0] == "lit" and _d(t[1]) is box["T"]
+            is_own = t[0] == "lit" and _d(t[1]) is _terms(evs)["T"]
             if want_lit != (t[0] == "lit") or (want_lit and not is_own):
                 R.violated("R02-b", "typename-literal:table",
                            "table: %s types %s of a branch as %s; a leaf flagged as the `__typename` meta field must be the string literal of the branch's own "
@@ -605,12 +611,14 @@ def _e_table(P, R):
 
         def thunk(ab, l=l, r=r):
             box["L"], box["R"] = _Opq("left." + l, [("param", "left")]), _Opq("right." + r, [("param", "right")])
+            ab.event("term", "L", None, box["L"])
+            ab.event("term", "R", None, box["R"])
             return ab.call(f.path, [_Var(l, [box["L"]], STF), _Var(r, [box["R"]], STF)])
         paths = _explore(P, R, "R02-e", key, "merging a %s occurrence with a %s occurrence of one response key" % (l, r), f, thunk, [mst.path] if mst else [])
         if paths is None:
             continue
         got = set()
-        for st, v, _ in paths:
+        for st, v, evs in paths:
             if st != "ok":
                 continue
             v = _d(v)
@@ -619,9 +627,9 @@ def _e_table(P, R):
                 continue
             org = _origin(v.args[0])
             side = {(True, False): "left", (False, True): "right", (True, True): "both", (False, False): "neither"}[(("param", "left") in org, ("param", "right") in org)]
-            if v.name != "Object" and _d(v.args[0]) is box["L"]:
+            if v.name != "Object" and _d(v.args[0]) is _terms(evs)["L"]:
                 side = "left"
-            elif v.name != "Object" and _d(v.args[0]) is box["R"]:
+            elif v.name != "Object" and _d(v.args[0]) is _terms(evs)["R"]:
                 side = "right"
             got.add((v.name, side))
         if not got or ("?", None) in got:
@@ -643,6 +651,8 @@ def _e_merge_used(P, R):
     def thunk(ab):
         n = _Opq("response key")
         box["a"], box["b"] = _t_field(P, "empty", n), _t_field(P, "leaf", n, ty=_ty("T"))
+        ab.event("term", "a", None, box["a"])
+        ab.event("term", "b", None, box["b"])
         return ab.call(d0.path, [[box["a"], box["b"]]])
     paths = _explore(P, R, "R02-e", "merge-used", "how two fields of one response key are de-duplicated", d0, thunk, [f.path])
     if paths is None:
@@ -654,7 +664,7 @@ def _e_merge_used(P, R):
         seen += 1
         calls = [ev for ev in evs if ev[0] == "call" and ev[1] == f.path]
         v = _d(v)
-        if len(calls) != 1 or not (_d(calls[0][2][0]) is box["a"] and _d(calls[0][2][1]) is box["b"]):
+        if len(calls) != 1 or not (_d(calls[0][2][0]) is _terms(evs)["a"] and _d(calls[0][2][1]) is _terms(evs)["b"]):
             bad = "the two occurrences are %s" % ("not merged" if not calls else "merged %d times / in another order" % len(calls))
         elif not (isinstance(v, list) and len(v) == 1 and isinstance(_d(v[0]), _Opq) and ("call", f.path) in _d(v[0]).origin):
             bad = "the result is not the single merged field"
@@ -1158,6 +1168,7 @@ def _f_enumeration_table(P, R, rule, f0, vis):
 
         def hook(ab, args, dirs=dirs):
             box["v"] = _Opq("$v")
+            ab.event("table-var", None, None, box["v"])      # (each path builds its own terms)
             ds = []
             for n, k in dirs:
                 ds.append(_t_directive(P, n, ("var", box["v"]) if k == "var" else (("var", _Opq("$w")) if k == "var0" else ("lit", _Opq("literal", ty="bool")))))
@@ -1184,7 +1195,10 @@ def _f_enumeration_table(P, R, rule, f0, vis):
             if not isinstance(v, list):
                 seen = None
                 break
-            if not any(_d(x) is box["v"] or x is box["v"] for x in v):
+            var = [ev[3] for ev in evs if ev[0] == "table-var"][-1]
+            same = [ev[3].pair for ev in evs if ev[0] == "assume" and ev[2] is True and getattr(ev[3], "pair", None)]
+            alias = {id(a if b is var else b) for a, b in same if a is var or b is var}     # names this path takes to be the same variable
+            if not any(_d(x) is var or x is var or id(_d(x)) in alias or id(x) in alias for x in v):
                 missing += 1
         _tri(R, rule, key, None if not seen else not missing, "table: the variable of %s is enumerated" % what,
              "table: given a field whose directives are %s, %s does not enumerate the variable of %s: no branch is made for its two values, and the "
@@ -2180,7 +2194,9 @@ class _Abs:
                 if not self.is_variant(a, b.name, len(b.args), b.adt):
                     return False
                 return self.eq(_d(a), b)
-            return self.opq("eq", a, b, atoms=[("eq",)])
+            e = self.opq("eq", a, b, atoms=[("eq",)])
+            e.pair = (a, b)        # which two undetermined values this boolean equates
+            return e
         if isinstance(a, (tuple, list)) and isinstance(b, (tuple, list)):
             if len(a) != len(b):
                 return False
